@@ -31,6 +31,7 @@ inductive Task where
   | metaInvoke (req reg : Nat) (details : Dict) (args : List WVal) (kw : Dict)
   | metaMsg (m : Msg)                           -- meta-procedure handler answers through the meta session
   | leave (k : SessKey) (mode : LeaveMode)
+  | inMsg (k : SessKey) (m : Msg)               -- the handler reads a message that waited in the transport
   deriving Inhabited
 
 /-- A session handler sleeping in the retry loop of `dealer.yield`: the caller's queue was
@@ -55,12 +56,14 @@ structure Realm where
   ending : List SessKey := []                  -- handler is exiting (EndRecv'd), still in `clients`
   testaments : List (SessKey × TBucket) := []
   metaProcs : List (Nat × String) := []        -- `metaProcMap`
-  metaS : Session := { key := metaKey, details := [("authrole", .str "trusted")], roles := [], isLocal := true }
+  metaS : Session := { key := metaKey, details := [("authrole", .str "trusted")],
+                       roles := [(RolePublisher, [FeaturePayloadPassthruMode])], isLocal := true }
   queues : List (SessKey × List Msg) := []     -- router→client queues of attached sessions
   closedPeers : List SessKey := []             -- peers closed during this step
   tasks : List Task := []
   retries : List Retry := []                   -- handlers busy in the yield retry loop
   deferred : List (SessKey × LeaveMode) := []  -- departures noticed only when the handler is free again
+  inbox : List (SessKey × Msg) := []           -- sent by buffered sessions while their handler was busy
   ghosts : List SessKey := []                  -- departed while not reading: closure unobserved until `resume`
   now : Nat := 0
   pubCount : Nat := 0
@@ -263,7 +266,8 @@ def authzGate (r : Realm) (s : Session) (m : Msg) : Bool × Realm :=
     else if s.isLocal && !r.cfg.localAuthz then (true, r)
     else
       let dec := authzDecision rules s.key m
-      if dec == "allow" then (true, r)
+      -- "allowerr": the Authorizer returns (true, err); the error is ignored (realm.go: `if !isAuthz`)
+      if dec == "allow" || dec == "allowerr" then (true, r)
       else
         let skip := match m with
           | .publish _ opts .. => !opts.optFlag OptAcknowledge
@@ -645,6 +649,8 @@ def metaProc (r : Realm) (proc : String) (req : Nat) (details : Dict) (args : Li
         if scope != "destroyed" && scope != "detached" then (mErr req ErrInvalidArgument, r)
         else
           let key := c - sidBase
+          -- `if _, ok := r.clients[caller]; !ok { return }`: nothing is stored for a session that has left
+          if !(decide (sidBase ≤ c) && r.clients.any (fun s => s.key == key)) then (mYield req [], r) else
           let t : Testament := { topic := topic, args := targs, kw := tkw, opts := opts }
           let cur := ((r.testaments.find? (fun x => x.1 == key)).map (·.2)).getD {}
           let cur := if scope == "destroyed" then { cur with destroyed := cur.destroyed ++ [t] }
@@ -675,6 +681,18 @@ def metaProc (r : Realm) (proc : String) (req : Nat) (details : Dict) (args : Li
 def metaPublish (r : Realm) (p : MetaPub) : Realm :=
   handlePublish r r.metaS 0 p.opts p.topic p.args p.kw
 
+/-- the session handler receives a message from its client.  A handler whose session is
+    ending reads nothing more; one sleeping in the yield retry loop reads nothing meanwhile:
+    a linked peer's client then cannot hand the message over at all (unbuffered channel, the
+    harness reports it as undelivered), a socket transport keeps it until the handler reads again. -/
+def recvMsg (r : Realm) (k : SessKey) (m : Msg) : Realm :=
+  match r.clients.find? (fun c => c.key == k) with
+  | none => r
+  | some s =>
+    if r.ending.contains k then r
+    else if r.busy k then (if s.buffered then { r with inbox := r.inbox ++ [(k, m)] } else r)
+    else handleMsg r s m
+
 def runTask (r : Realm) : Task → Realm
   | .metaPub p => r.metaPublish p
   | .metaInvoke req reg details args kw =>
@@ -687,6 +705,7 @@ def runTask (r : Realm) : Task → Realm
   | .leave k mode =>
     -- a handler in the yield retry loop notices nothing until the loop ends
     if r.busy k then { r with deferred := r.deferred ++ [(k, mode)] } else r.leave k mode
+  | .inMsg k m => r.recvMsg k m
 
 /-- run pending tasks, oldest first, until none is left (or the fuel runs out) -/
 def drain : Nat → Realm → Realm
@@ -735,6 +754,7 @@ inductive Op where
   | drop (k : SessKey)                 -- transport lost
   | stall (k : SessKey)
   | resume (k : SessKey)
+  | buffer (k : SessKey)               -- the session is attached through a socket transport
   | tick (ms : Nat)
   | rnd (n : Nat)                      -- sets the oracle for the random invocation policy
   deriving Inhabited
@@ -748,10 +768,13 @@ def retryDue (r : Realm) (x : Retry) : Realm :=
   if o.again then
     { r with retries := r.retries ++ [{ x with next := r.now + x.delay * 2, delay := x.delay * 2 }] }
   else
-    -- the handler is free again: departures it had not noticed happen now
+    -- the handler is free again: it reads what waited in the transport, then notices the
+    -- departures it had missed
+    let waiting := r.inbox.filter (fun d => d.1 == x.callee)
     let mine := r.deferred.filter (fun d => d.1 == x.callee)
     { r with deferred := r.deferred.filter (fun d => d.1 != x.callee),
-             tasks := r.tasks ++ mine.map (fun d => Task.leave d.1 d.2) }
+             inbox := r.inbox.filter (fun d => d.1 != x.callee),
+             tasks := r.tasks ++ waiting.map (fun d => Task.inMsg d.1 d.2) ++ mine.map (fun d => Task.leave d.1 d.2) }
 
 /-- a call-timeout goroutine fires: `syncCancel(killnowait, wamp.error.timeout)` -/
 def timerDue (r : Realm) (t : Timer) : Realm :=
@@ -781,10 +804,8 @@ def stepOp (r : Realm) : Op → Realm
     let s : Session := { key := k, details := details, roles := roles, isLocal := isLocal, cap := cap }
     let r := { r with clients := r.clients ++ [s], queues := r.queues ++ [(k, [])] }
     r.addTasks [.metaPub { topic := MetaEventSessionOnJoin, args := [.dict (r.cleanDetails details)] }]
-  | .msg k m =>
-    match r.clients.find? (fun c => c.key == k) with
-    | none => r
-    | some s => if r.ending.contains k || r.busy k then r else handleMsg r s m
+  | .msg k m => r.recvMsg k m
+  | .buffer k => { r with clients := r.clients.map (fun c => if c.key == k then { c with buffered := true } else c) }
   | .drop k =>
     if r.ending.contains k then r
     else { r with tasks := r.tasks ++ [.leave k .lost], ending := r.ending ++ [k] }
